@@ -135,13 +135,14 @@ impl Embedding {
         let pos = self.model_positions();
         let last_model = *pos.last().unwrap_or(&0);
         // where members of one group differ: below the model bits if there is room, else in the
-        // 24 bits just above the shared prefix's end
+        // 40 bits just above the shared prefix's end (24 bits gave a birthday collision among 1200 keys
+        // in a few percent of the scripts: "concretisation produced duplicate keys")
         let (vlo, vhi) = if !self.clustered {
             (0usize, 256usize)
-        } else if 255 - last_model >= 24 {
+        } else if 255 - last_model >= 40 {
             (last_model + 1, 256)
         } else {
-            (self.prefix.saturating_sub(24), self.prefix)
+            (self.prefix.saturating_sub(40), self.prefix)
         };
         let mut k = [0u8; 32];
         for bit in 0..256 {
